@@ -33,13 +33,41 @@ class UserStop(Exception):
     pass
 
 
+class Ex:
+    """An example.  The library has no business comparing examples: any ==, <,
+    hash-based lookup or truth test on one raises."""
+    __slots__ = ('i',)
+
+    def __init__(self, i):
+        self.i = i
+
+    def _no(self, *a):
+        raise AssertionError('the library compared / hashed / truth-tested an example')
+    __eq__ = __ne__ = __lt__ = __le__ = __gt__ = __ge__ = __bool__ = __len__ = _no
+    __hash__ = None
+
+    def __repr__(self):
+        return f'Ex({self.i})'
+
+
+def code(it):
+    return it.i if isinstance(it, Ex) else (it if isinstance(it, int) else SENT)
+
+
 class Src:
-    def __init__(self, sched, n, fail_at, fail_cls):
+    def __init__(self, sched, n, fail_at, fail_cls, fiter=0):
         self.sched, self.n, self.fail_at, self.fail_cls = sched, n, fail_at, fail_cls
         self.i = 0
         self.dead = False
+        self.fiter = fiter       # 1: iter(source) itself raises (fail_at must be 0)
 
     def __iter__(self):
+        if self.fiter and self.fail_cls != 'none' and self.fail_at == 0:
+            s = self.sched
+            s.point('pull')
+            self.dead = True
+            s.log('pull', RAISE)
+            raise (SrcError if self.fail_cls == 'exc' else SrcBase)('injected at iter()')
         return self
 
     def __next__(self):
@@ -58,7 +86,7 @@ class Src:
             raise StopIteration
         self.i += 1
         s.log('pull', self.i)
-        return self.i
+        return Ex(self.i)
 
 
 # ---- choosers ---------------------------------------------------------------
@@ -106,8 +134,8 @@ def prefix_chooser(prefix):
 def run_stp(cfg, choose):
     ctl = detsched.Controlled(choose)
     with ctl as sched:
-        sched.item_code = lambda it: it if isinstance(it, int) else SENT
-        src = Src(sched, cfg['n'], cfg['fail_at'], cfg['fail_cls'])
+        sched.item_code = code
+        src = Src(sched, cfg['n'], cfg['fail_at'], cfg['fail_cls'], cfg.get('fiter', 0))
         delivered = []
         end = 'running'
         gen = None
@@ -124,8 +152,8 @@ def run_stp(cfg, choose):
                         end = 'returned'
                         break
                     sched.point('yield')        # the hand-over to the user
-                    delivered.append(item)
-                    sched.log('yield', item)
+                    delivered.append(code(item))
+                    sched.log('yield', code(item))
                     if cfg['stop'] == 'close' and len(delivered) == cfg['stop_k']:
                         sched.log('close')
                         gen.close()
@@ -161,6 +189,13 @@ def run_stp(cfg, choose):
 
 
 def stp_configs(max_n, bufs, fails=('none', 'exc', 'base')):
+    out = _stp_configs(max_n, bufs, fails)
+    # a source whose iter() itself raises (same events as a failure of the first pull)
+    extra = [dict(c, fiter=1) for c in out if c['fail_at'] == 0 and c['fail_cls'] != 'none']
+    return [dict(c, fiter=0) for c in out] + extra
+
+
+def _stp_configs(max_n, bufs, fails=('none', 'exc', 'base')):
     out = []
     for n in range(0, max_n + 1):
         for buf in bufs:
@@ -206,18 +241,18 @@ def run_lpm(cfg, choose):
     which the mapped function raises)."""
     ctl = detsched.Controlled(choose)
     with ctl as sched:
-        sched.item_code = lambda it: it if isinstance(it, int) else SENT
+        sched.item_code = code
         src = Src(sched, cfg['n'], cfg['fail_at'], cfg['fail_cls'])
         fn_fail = set(cfg['fn_fail'])
 
         def fn(x):
             sched.point('call')
-            sched.log('call', x)
+            sched.log('call', code(x))
             sched.point('ret')
-            if x in fn_fail:
-                sched.log('ret', x, 0)
-                raise FnError(x)
-            sched.log('ret', x, 1)
+            if code(x) in fn_fail:
+                sched.log('ret', code(x), 0)
+                raise FnError(code(x))
+            sched.log('ret', code(x), 1)
             return x
 
         delivered = []
@@ -236,8 +271,8 @@ def run_lpm(cfg, choose):
                         end = 'returned'
                         break
                     sched.point('yield')
-                    delivered.append(item)
-                    sched.log('yield', item)
+                    delivered.append(code(item))
+                    sched.log('yield', code(item))
                     if cfg['stop'] == 'close' and len(delivered) == cfg['stop_k']:
                         sched.log('close')
                         gen.close()
@@ -260,6 +295,9 @@ def run_lpm(cfg, choose):
             end = 'raised_base'
         except FnError:
             end = 'raised_fn'
+        except AssertionError:
+            # buffer_size < max_workers is refused before anything is pulled
+            end = 'refused' if not sched.events else 'raised_other_AssertionError'
         except BaseException as e:
             end = 'raised_other_' + type(e).__name__
         nev = len(sched.events)
@@ -277,9 +315,9 @@ def lpm_configs(max_n, ws, bufs):
     out = []
     for n in range(0, max_n + 1):
         for w in ws:
-            for buf in bufs:
-                if buf < w:
-                    continue
+            for buf in bufs + [0]:
+                if buf < w and not (buf == w - 1 and n >= 2):
+                    continue        # (buffer_size = max_workers - 1: must be refused)
                 stops = [('exhaust', 0)] + [('close', k) for k in range(0, n + 1)]
                 for stop, k in stops:
                     base = {'n': n, 'buf': buf, 'w': w, 'stop': stop, 'stop_k': k}
@@ -309,7 +347,7 @@ def run_ds(cfg, choose):
     import lazy_dataset
     ctl = detsched.Controlled(choose)
     with ctl as sched:
-        sched.item_code = lambda it: it if isinstance(it, int) else SENT
+        sched.item_code = code
         fn_fail = set(cfg['fn_fail'])
         exc = _fail_exc(cfg['fail_kind'])
 
@@ -321,7 +359,7 @@ def run_ds(cfg, choose):
                 sched.log('ret', x, 0)
                 raise exc(x)
             sched.log('ret', x, 1)
-            return x
+            return Ex(x)         # examples refuse to be compared
 
         delivered = []
         end = 'running'
@@ -348,8 +386,8 @@ def run_ds(cfg, choose):
                         end = 'returned'
                         break
                     sched.point('yield')
-                    delivered.append(item)
-                    sched.log('yield', item)
+                    delivered.append(code(item))
+                    sched.log('yield', code(item))
                     if cfg['stop'] == 'close' and len(delivered) == cfg['stop_k']:
                         sched.log('close')
                         gen.close()
